@@ -6,7 +6,7 @@
 From Coq Require Import List ZArith Bool.
 From Herc Require Import Burndown.Base Burndown.Dense Burndown.DenseProofs Burndown.Lifetimes
   Burndown.LifetimesFacts Burndown.Analysis Burndown.SparseFacts Burndown.AnalysisFacts Burndown.LinearProofs
-  Burndown.Replay Burndown.CommitProofs Burndown.PlanProofs Burndown.MatrixProofs.
+  Burndown.Replay Burndown.CommitProofs Burndown.PlanProofs Burndown.DagProofs Burndown.MatrixProofs.
 Import ListNotations.
 Open Scope Z_scope.
 
@@ -115,6 +115,74 @@ Example C01_matrix_merge_free_nonvacuous :
   conflict_free ex_h = true /\ plan_okb ex_h ex_plan = true /\ merge_freeb ex_plan = true /\
   match run_hist (mkCfg 2 true) ex_h [0; 1; 0] ex_plan with
   | Ok w => group_sparse_history 2 1 (s_gh (w_shared w)) (-1) = Ok (truth_project ex_h 2 1, 2)
+  | _ => False
+  end.
+Proof. vm_compute. auto. Qed.
+
+(* ---- conflict-free histories, any validated plan: linear, forks, diamonds, criss-cross, octopus ... ---- *)
+Theorem C01_global_sparse : forall h cf aidx plan w,
+  conflict_free h = true -> (forall c, 0 <= c < ncommits h -> tick_of h c < mark) ->
+  (forall c, 0 <= znth 0 aidx c) ->
+  plan_okb h plan = true -> run_hist cf h aidx plan = Ok w ->
+  forall P, wsum P (s_gh (w_shared w)) = sum_z (map (contrib h P) (zrange (ncommits h))).
+Proof.
+  intros h cf aidx plan w Hcf Hm Ha Hok Er.
+  exact (proj1 (global_sparse h cf aidx Hcf Hm Ha plan w Hok Er)).
+Qed.
+Print Assumptions C01_global_sparse.
+
+(* C01_matrix: the dense project matrix IS the ground-truth matrix (same rows, same bands, same cells) *)
+Theorem C01_matrix : forall h cf aidx plan w G S M last,
+  conflict_free h = true -> (forall c, 0 <= c < ncommits h -> tick_of h c < mark) ->
+  (forall c, 0 <= znth 0 aidx c) ->
+  plan_okb h plan = true -> run_hist cf h aidx plan = Ok w ->
+  1 <= G -> 1 <= S -> group_sparse_history G S (s_gh (w_shared w)) (-1) = Ok (M, last) ->
+  M = truth_project h G S /\ last = last_event h.
+Proof. exact matrix_eq. Qed.
+Print Assumptions C01_matrix.
+
+Theorem C01_matrix_cells : forall h cf aidx plan w G S M last,
+  conflict_free h = true -> (forall c, 0 <= c < ncommits h -> tick_of h c < mark) ->
+  (forall c, 0 <= znth 0 aidx c) ->
+  plan_okb h plan = true -> run_hist cf h aidx plan = Ok w ->
+  1 <= G -> 1 <= S -> group_sparse_history G S (s_gh (w_shared w)) (-1) = Ok (M, last) ->
+  forall s b, 0 <= s <= last / S -> 0 <= b <= last / G -> cell M s b = truth_cell h G S keep_all s b.
+Proof. exact matrix_cells. Qed.
+Print Assumptions C01_matrix_cells.
+
+(* corollary: with a single head the last row sums to the number of lines at HEAD *)
+Theorem C01_last_row_is_head : forall h cf aidx plan w G S M last,
+  conflict_free h = true -> single_head h = true ->
+  (forall c, 0 <= c < ncommits h -> tick_of h c < mark) -> (forall c, 0 <= znth 0 aidx c) ->
+  plan_okb h plan = true -> run_hist cf h aidx plan = Ok w ->
+  1 <= G -> 1 <= S -> group_sparse_history G S (s_gh (w_shared w)) (-1) = Ok (M, last) ->
+  sum_z (nth (Z.to_nat (last / S)) M []) = lines_at_head h.
+Proof. exact last_row_is_head. Qed.
+Print Assumptions C01_last_row_is_head.
+
+(* corollary: no negative cell *)
+Theorem C01_no_negative_cell : forall h cf aidx plan w G S M last,
+  conflict_free h = true -> (forall c, 0 <= c < ncommits h -> tick_of h c < mark) ->
+  (forall c, 0 <= znth 0 aidx c) ->
+  plan_okb h plan = true -> run_hist cf h aidx plan = Ok w ->
+  1 <= G -> 1 <= S -> group_sparse_history G S (s_gh (w_shared w)) (-1) = Ok (M, last) ->
+  forall s b, 0 <= s <= last / S -> 0 <= b <= last / G -> 0 <= cell M s b.
+Proof.
+  intros h cf aidx plan w G S M last Hcf Hm Ha Hok Er HG HS Eg s b Hs Hb.
+  rewrite (matrix_cells h cf aidx plan w G S M last Hcf Hm Ha Hok Er HG HS Eg s b Hs Hb).
+  apply truth_cell_nonneg.
+Qed.
+Print Assumptions C01_no_negative_cell.
+
+(* non-vacuity: a diamond with a merge that adds a line, two developers; commit 1 kills a line of commit 0 *)
+Definition ex_dag : hist := mkHist [[]; [0]; [0]; [1; 2]] [0; 1; 1; 3] [0; 1; 0; 1]
+  [(0, [mkLine 0 0 1; mkLine 1 0 (-1); mkLine 2 1 (-1); mkLine 5 3 (-1); mkLine 3 2 (-1)]); (1, [mkLine 4 2 (-1)])].
+Definition ex_dag_plan : list action :=
+  [AEmerge 1; ACommit 0 1; AFork 1 [2]; ACommit 1 1; ACommit 2 2; ACommit 3 1; ACommit 3 2; AMerge [1; 2]; ADelete 2].
+Example C01_matrix_nonvacuous :
+  conflict_free ex_dag = true /\ plan_okb ex_dag ex_dag_plan = true /\
+  match run_hist (mkCfg 2 true) ex_dag [0; 1; 0; 1] ex_dag_plan with
+  | Ok w => group_sparse_history 2 1 (s_gh (w_shared w)) (-1) = Ok (truth_project ex_dag 2 1, 3)
   | _ => False
   end.
 Proof. vm_compute. auto. Qed.
